@@ -1132,6 +1132,42 @@ Proof.
     eapply vsub_trans; [apply vsub_or_r|exact H1].
 Qed.
 
+Definition v_with_A2 (V : vset) : vset := {| vRT := vRT V; vMK := vMK V; vA1 := vA1 V; vA2 := true |}.
+Definition v_with_A1 (V : vset) : vset := {| vRT := vRT V; vMK := vMK V; vA1 := true; vA2 := vA2 V |}.
+Definition v_with_MK (V : vset) : vset := {| vRT := vRT V; vMK := true; vA1 := vA1 V; vA2 := vA2 V |}.
+Definition v_with_RT (V : vset) : vset := {| vRT := true; vMK := vMK V; vA1 := vA1 V; vA2 := vA2 V |}.
+Lemma vsub_A2 V : vsub V (v_with_A2 V). Proof. repeat split; simpl; auto. Qed.
+Lemma vsub_A1 V : vsub V (v_with_A1 V). Proof. repeat split; simpl; auto. Qed.
+Lemma vsub_MK V : vsub V (v_with_MK V). Proof. repeat split; simpl; auto. Qed.
+Lemma vsub_RT V : vsub V (v_with_RT V). Proof. repeat split; simpl; auto. Qed.
+
+Lemma set_depth_agree V c1 c2 d : agree V c1 c2 -> agree V (set_depth c1 d) (set_depth c2 d).
+Proof. intro A. ag_destruct A c1 c2. unfold set_depth; ag_solve. Qed.
+Lemma stack_rule_agree V c1 c2 r dt exp :
+  agree V c1 c2 -> agree V (stack_rule r dt exp c1) (stack_rule r dt exp c2).
+Proof. intro A. ag_destruct A c1 c2. unfold stack_rule; ag_solve. Qed.
+Lemma set_rectypes_agree V c1 c2 id : agree V c1 c2 ->
+  agree (v_with_RT V) (set_rectypes c1 (rectypes c1) id) (set_rectypes c2 (rectypes c2) id).
+Proof. intro A. ag_destruct A c1 c2. unfold set_rectypes; ag_solve. Qed.
+Lemma set_markers_agree V c1 c2 id : agree V c1 c2 ->
+  agree (v_with_MK V) (set_markers c1 id (marked c1) (fwd c1) (refcount c1))
+                      (set_markers c2 id (marked c2) (fwd c2) (refcount c2)).
+Proof. intro A. ag_destruct A c1 c2. unfold set_markers; ag_solve. Qed.
+
+(* BeginRecordType: the new entry and the record type name, written together *)
+Lemma begin_rt_agree V c1 c2 id d : agree V c1 c2 ->
+  let x1 := stack_rule RRecordType DT_RecordType None (set_depth c1 d) in
+  let x2 := stack_rule RRecordType DT_RecordType None (set_depth c2 d) in
+  agree (v_with_RT V) (set_rectypes x1 (rectypes x1) id) (set_rectypes x2 (rectypes x2) id).
+Proof. intros A x1 x2. apply set_rectypes_agree, stack_rule_agree, set_depth_agree, A. Qed.
+
+(* BeginMarker: the new entry and the marker id, written together *)
+Lemma begin_marker_agree V c1 c2 r dt id : agree V c1 c2 ->
+  agree (v_with_MK V)
+    (stack_rule r dt None (set_markers c1 id (marked c1) (fwd c1) (refcount c1)))
+    (stack_rule r dt None (set_markers c2 id (marked c2) (fwd c2) (refcount c2))).
+Proof. intro A. apply stack_rule_agree, set_markers_agree, A. Qed.
+
 Section Sound.
   Variable cfg : rcfg.
   Variable call : rule -> meth -> args -> rctx -> option rctx.
@@ -1245,14 +1281,6 @@ Section Sound.
     destruct (set_rule_rel V' a b _ A' C' D) as [A2 C2]. exists V'. auto.
   Qed.
 
-  Definition v_with_A2 (V : vset) : vset := {| vRT := vRT V; vMK := vMK V; vA1 := vA1 V; vA2 := true |}.
-  Definition v_with_A1 (V : vset) : vset := {| vRT := vRT V; vMK := vMK V; vA1 := true; vA2 := vA2 V |}.
-  Definition v_with_MK (V : vset) : vset := {| vRT := vRT V; vMK := true; vA1 := vA1 V; vA2 := vA2 V |}.
-  Definition v_with_RT (V : vset) : vset := {| vRT := true; vMK := vMK V; vA1 := vA1 V; vA2 := vA2 V |}.
-  Lemma vsub_A2 V : vsub V (v_with_A2 V). Proof. repeat split; simpl; auto. Qed.
-  Lemma vsub_A1 V : vsub V (v_with_A1 V). Proof. repeat split; simpl; auto. Qed.
-  Lemma vsub_MK V : vsub V (v_with_MK V). Proof. repeat split; simpl; auto. Qed.
-  Lemma vsub_RT V : vsub V (v_with_RT V). Proof. repeat split; simpl; auto. Qed.
 
   Lemma rule_chunk_rel V c1 c2 sr len more :
     agree V c1 c2 -> cov V c1 -> vA1 V = true ->
@@ -1407,7 +1435,7 @@ Section Sound.
       assert (Ed : depth c1 = depth c2) by (destruct A as [H _]; unfold core in H; congruence).
       rewrite <- Ed. destruct (_ <? _); [exact I|].
       eapply orel_some; [apply vsub_RT| |].
-      + ag_destruct A c1 c2. simpl in *. unfold stack_rule, set_rectypes, set_cur, set_stack, set_depth. ag_solve.
+      + apply begin_rt_agree. exact A.
       + unfold cov in *. destruct c1; simpl in *. constructor.
         * unfold entry_demand, v_or, rule_demand, dtype_demand, vsub, mk_entry.
           cbn [vRT vMK vA1 vA2 e_rule e_dtype v_with_RT is_marker is_array is_chunk]. rewrite ?N.eqb_refl, ?F6, ?F7.
@@ -1420,9 +1448,9 @@ Section Sound.
     - apply begin_container_rel; auto; apply const_facts.
     - apply end_container_rel; auto.
     - (* PBeginMarkerAnyType *)
-      apply negb_true_iff in K. unfold stack_rule.
+      apply negb_true_iff in K.
       eapply orel_some; [apply vsub_MK| |].
-      + ag_destruct A c1 c2. simpl in *. unfold set_markers, set_cur, set_stack. ag_solve.
+      + apply begin_marker_agree. exact A.
       + unfold cov in *. destruct c1; simpl in *. constructor.
         * unfold entry_demand, v_or, rule_demand, dtype_demand, vsub, mk_entry.
           cbn [vRT vMK vA1 vA2 e_rule e_dtype v_with_MK is_marker is_array is_chunk].
@@ -1430,9 +1458,9 @@ Section Sound.
           rewrite K1, K2, K3. repeat split; simpl; intro X; try discriminate; auto.
         * eapply Forall_impl; [|exact C]. intros e He. cbv beta in *. eapply vsub_trans; [exact He|apply vsub_MK].
     - (* PBeginMarkerKeyable *)
-      apply negb_true_iff in K. unfold stack_rule.
+      apply negb_true_iff in K.
       eapply orel_some; [apply vsub_MK| |].
-      + ag_destruct A c1 c2. simpl in *. unfold set_markers, set_cur, set_stack. ag_solve.
+      + apply begin_marker_agree. exact A.
       + unfold cov in *. destruct c1; simpl in *. constructor.
         * unfold entry_demand, v_or, rule_demand, dtype_demand, vsub, mk_entry.
           cbn [vRT vMK vA1 vA2 e_rule e_dtype v_with_MK is_marker is_array is_chunk].
